@@ -280,6 +280,12 @@ def field_values(eng: Engine, ctx: Ctx, rid1: str, rid2: str, rid3: str, rid5: s
                     if not (pr_ is not None and ps_ is not None and (pr_ - ps_) == wpoly):
                         fail(rid1, key, "variable-width extraction", "the NSat*NSig bits at the offset", show(st)[:60], node)
                     break
+                if key in var_width and st[1] == "%" and st[2][0] == "bin" and st[2][1] == ">>" and st[2][2] == P and st[3][0] == "bin" and st[3][1] == "<<" and st[3][2] == ("const", 1):
+                    # (P >> S) % (1 << W): the W low bits, like & ((1 << W) - 1)
+                    B, S = st, st[2][3]
+                    if to_poly(st[3][3], symn) != wpoly:
+                        fail(rid1, key, "variable-width mask", "% (1 << NSat*NSig)", show(st[3])[:60], node)
+                    break
                 if key in var_width and st[1] == "&" and st[2][0] == "bin" and st[2][1] == ">>" and st[2][2] == P:
                     # variable width: mask = (1 << W) - 1 with W the same product as in the shift
                     B, S = st, st[2][3]
